@@ -83,9 +83,10 @@ def capacity(ctx, facts):
         ctx.missing("CONST-capacity", "ProofBatch::generate")
     else:
         found = False
+        dbg = flow.debug_only_blocks(b)
         for bb in sorted(b.live_blocks()):
             t = b.term(bb)
-            if t["k"] == "switch":
+            if t["k"] == "switch" and bb not in dbg:      # a debug_assert! is not there in the shipped build
                 e = flow.expr_of(b, t["o"])
                 if e[0] == "bin" and e[1] == "Le" and "len" in str(e[2]) and ("pow" in str(e[3]) or e[3][0] == "const"):
                     found = True
@@ -237,9 +238,10 @@ def challenge(ctx, facts):
     # the 2*exclude_to < prime assertion dominates
     dom = b.dominators()
     g = False
+    dbg = flow.debug_only_blocks(b)
     for bb in sorted(b.live_blocks()):
         t = b.term(bb)
-        if t["k"] == "switch":
+        if t["k"] == "switch" and bb not in dbg:          # a debug_assert! is not there in the shipped build
             e2 = flow.expr_of(b, t["o"])
             if e2[0] == "bin" and e2[1] == "Lt" and "Mul" in str(e2[2]) and ("arg", 3) in _args(e2[2]):
                 ed = flow.switch_edges(b, bb)
